@@ -159,6 +159,7 @@ def check(spec):
         zero_rows=len(case.pdf) == 0,
         shuffle=str(tune.get("shuffle_method", "default")),
         split_gt1=tune.get("split_out") is True or (isinstance(tune.get("split_out"), int) and tune.get("split_out") > 1),
+        observed_false=g.get("observed") is False,
         index_unnamed=spec["frame"].get("index", {}).get("name") is None,
         uses_first_last=a.get("name") in ("first", "last") or any(x in repr(a.get("arg")) for x in ("'first'", "'last'")),
         uses_median=a.get("name") == "median" or "'median'" in repr(a.get("arg")),
@@ -188,6 +189,7 @@ def check(spec):
                 count("dask-documented-refusal")
                 raise Reject("dask refuses with its documented message") from None
             raise
+    sig["empty_result"] = hasattr(want, "__len__") and len(want) == 0
     maybe_empty = True  # per-partition group aggregation: any partition may lack a group
     kind = a["kind"]
     kw = dict(what=f"{sig['agg']} by {sig['by']}", sig=sig, maybe_empty=maybe_empty)
@@ -210,8 +212,11 @@ def check(spec):
     # indeed does not), so order-dependent functions (shift/ffill/bfill/cummax/rank) are compared by value
     # only when no shuffle happens: one partition, or grouping by the index with known divisions.
     order_dependent = a["name"] in ("shift", "ffill", "bfill") or a.get("fn") in ("cummax", "rank_first")
-    shuffles = case.nparts > 1 and not (g["by"] == "index" and case.known_div)
-    if order_dependent and shuffles:
+    # (probes: the default/disk shuffle reorders rows within a group, and even a single partition is
+    # sorted by its index first - so values are compared only for one partition with a sorted index, or
+    # grouping by the index itself with known divisions, where no reordering can happen)
+    no_reorder = (case.nparts == 1 and case.monotonic) or (g["by"] == "index" and case.known_div)
+    if order_dependent and not no_reorder:
         count("order-dependent-transform-weak-check")
         weak_compare(got, want, sig)
         return
